@@ -378,4 +378,21 @@ theorem shared_objects_immutable_after_construction :
     JinjaV.Gen.ModuleProtocol.sharedObjectSelfWrites =
       [("Macro", []), ("Context", []), ("TemplateModule", []), ("TemplateExpression", [])] := by decide
 
+/-- The dictionaries generated code hands to context-aware callables (`Context.call(…, _block_vars=…/_loop_vars=…)`) are
+    task-private: compiler.py writes `_block_vars = {}` exactly once, inside every block function (in the loop over the
+    blocks, under no condition), `_loop_vars = {}` exactly once, at the head of every loop body (under no condition), and
+    the lines it writes at module level of the generated code (shared by every render of the template) are the runtime
+    import, extension imports, the template name, the block table and the debug info — no mutable literal. -/
+theorem local_vars_are_per_call :
+    JinjaV.Gen.ModuleProtocol.localVarsInits =
+      [("visit_Template", "_block_vars = {}", ["for (name, block) in self.blocks.items()"]),
+       ("visit_For", "_loop_vars = {}", [])]
+    ∧ JinjaV.Gen.ModuleProtocol.moduleLevelLinesBeforeRoot =
+      ["'from jinja2.runtime import ' + ', '.join(exported_names)",
+       "[for] f'from {module} import {obj} as {alias}'",
+       "[for] f'import {imp} as {alias}'",
+       "f'name = {self.name!r}'",
+       "f'blocks = {{{blocks_kv_str}}}'",
+       "f'debug_info = {debug_kv_str!r}'"] := by decide
+
 end JinjaV.C37
